@@ -14,6 +14,8 @@ import JsonV.Lemmas.GlueFormatStr
 import JsonV.Lemmas.GlueFormatLayout
 import JsonV.Lemmas.FormatStrictL
 import JsonV.Lemmas.GlueTreeConverse
+import JsonV.Lemmas.GlueStrict
+import JsonV.Props.C01
 import JsonV.Gen.Lits
 
 namespace JsonV.Props.C12
@@ -190,10 +192,6 @@ theorem formatV_ok_text (key : Bytes → Bytes) (o : FOpts) (b : Bytes) (h : (fo
   | none => simp [ht] at h
   | some ts => exact tokenize_text key b ts ((tokenizeV_eq_some o b ts).mp ht).1
 
-def formatV_ok_iff_text_full : Prop :=
-  ∀ (o : FOpts) (b : Bytes), (formatV o b).isSome = true ↔
-    Spec.Grammar.JText ⟨!o.allowInvalidUTF8, o.allowDup⟩ maxDepth (nameKey o) b
-
 /-- Tie A: the literals the renderer emits are the literals of AppendIndent / appendWhitespace / reformatValue /
 reformatObject / reformatArray (regenerated from encode.go). -/
 theorem tie_render_literals :
@@ -238,6 +236,32 @@ theorem formatV_ok_iff (o : FOpts) (b : Bytes) :
         exact ⟨ts, h3, h2, h4⟩
     · rintro ⟨ts, h3, h2, h4⟩
       rw [(tokenizeV_eq_some o b ts).mpr ⟨(tokenize_iff_layout' b ts).mpr ⟨h3, h4⟩, h2⟩]; rfl
+
+/-- **succeed iff valid for the strict model, against the C01 grammar**: `Value.Format` with the modelled options
+succeeds exactly on the texts of `JText` with the selected string mode (strict UTF-8 unless AllowInvalidUTF8),
+duplicate policy (names unique unless AllowDuplicateNames, compared by C01's `nameKey`) and nesting ≤ maxNestingDepth. -/
+theorem formatV_ok_iff_text (o : FOpts) (b : Bytes) :
+    (formatV o b).isSome = true ↔
+      Spec.Grammar.JText ⟨!o.allowInvalidUTF8, o.allowDup⟩ maxDepth (nameKey o) b := by
+  rw [(formatV_ok_iff o b).1]
+  unfold isValidV
+  constructor
+  · intro h
+    cases ht : tokenizeV o b with
+    | none => simp [ht] at h
+    | some ts => exact tokenizeV_text o b ts ht
+  · intro h
+    obtain ⟨ts, ht⟩ := text_tokenizeV o b h
+    simp [ht]
+
+/-- the token-level validity of this slice is C01's model of `Value.IsValid`, for all four option combinations -/
+theorem isValidV_eq_isValid (o : FOpts) (b : Bytes) :
+    isValidV o b = Model.Validate.isValid ⟨o.allowInvalidUTF8, o.allowDup⟩ b := by
+  have h1 := formatV_ok_iff_text o b
+  rw [(formatV_ok_iff o b).1] at h1
+  have h2 := JsonV.Props.C01.valid_iff ⟨o.allowInvalidUTF8, o.allowDup⟩ b
+  have h3 : isValidV o b = true ↔ Model.Validate.isValid ⟨o.allowInvalidUTF8, o.allowDup⟩ b = true := h1.trans h2.symm
+  cases hv : isValidV o b <;> cases hw : Model.Validate.isValid ⟨o.allowInvalidUTF8, o.allowDup⟩ b <;> simp_all
 
 /-- validity does not depend on the formatting options -/
 theorem isValidV_congr (o o' : FOpts) (h1 : o.allowInvalidUTF8 = o'.allowInvalidUTF8) (h2 : o.allowDup = o'.allowDup)
